@@ -20,34 +20,40 @@ Lemma up_nil k : up k [] = [].
 Proof. induction k; simpl; auto. Qed.
 
 (* ------------------------------------------------------------------ one stream *)
-Definition gs_reads (F : facts) (p : path) (r : ref) (at_ : path) : list read :=
+Definition gs_reads (F : facts) (p : path) (r : ref) (del : bool) (at_ : path) : list read :=
   match p with
   | [] => []
-  | _ :: _ => if negb (is_nb F p) then [] else match r with RWorktree => [(at_, p)] | _ => [] end
+  | _ :: _ => if negb (is_nb F p) then [] else match r with RWorktree => if del then [] else [(at_, p)] | _ => [] end
   end.
 
-Definition good (F : facts) : Prop := f_pushd_saves F = Getcwd /\ f_pushd_finally F = true.
+(* pushd saves an absolute directory and restores it in `finally`; the working-tree side of an entry git reports as
+   deleted is the missing file without looking at the disk *)
+Definition good (F : facts) : Prop :=
+  f_pushd_saves F = Getcwd /\ f_pushd_finally F = true /\ f_deleted_missing F = true.
 
 (* a (facts, repo_dir, cwd) combination under which _get_diff_entry_stream leaves the directory alone and
    reads at [root] *)
 Definition stable (F : facts) (W : world) (d : dirarg) (cwd root : path) : Prop :=
-  forall p blob r, get_stream F W cwd p blob r d = (cwd, gs_reads F p r root, spec_stream F W root p blob r).
+  forall p blob r del,
+    get_stream F W cwd p blob r del d = (cwd, gs_reads F p r del root, spec_stream F W root p blob r del).
 
 Lemma stable_good F W d cwd : good F -> stable F W d cwd (chdir cwd d).
 Proof.
-  intros [Hs Hf] p blob r. unfold get_stream, gs_reads, spec_stream.
+  intros (Hs & Hf & Hd) p blob r del. unfold get_stream, gs_reads, spec_stream.
   destruct p as [|c p']; [reflexivity|].
   destruct (negb (is_nb F (c :: p'))); [reflexivity|].
   destruct r; try (destruct blob; reflexivity).
+  rewrite Hd. destruct del; [reflexivity|].
   rewrite Hs, Hf. simpl. destruct (pushd_body F W (chdir cwd d) (c :: p')); reflexivity.
 Qed.
 
-Lemma stable_root F W cwd : stable F W (Up 0) cwd cwd.
+Lemma stable_root F W cwd : f_deleted_missing F = true -> stable F W (Up 0) cwd cwd.
 Proof.
-  intros p blob r. unfold get_stream, gs_reads, spec_stream.
+  intros Hd p blob r del. unfold get_stream, gs_reads, spec_stream.
   destruct p as [|c p']; [reflexivity|].
   destruct (negb (is_nb F (c :: p'))); [reflexivity|].
   destruct r; try (destruct blob; reflexivity).
+  rewrite Hd. destruct del; [reflexivity|].
   simpl. destruct (f_pushd_saves F), (pushd_body F W cwd (c :: p')), (f_pushd_finally F); reflexivity.
 Qed.
 
@@ -58,10 +64,10 @@ Definition loop_ok (F : facts) (W : world) (root cwd : path) (rb rr : ref) (es :
   Forall (fun rd => fst rd = root) (r_reads res) /\
   (pairs_of res, r_raised res) = spec_pairs F W root rb rr es.
 
-Lemma gs_reads_at F p r root : Forall (fun rd : read => fst rd = root) (gs_reads F p r root).
+Lemma gs_reads_at F p r del root : Forall (fun rd : read => fst rd = root) (gs_reads F p r del root).
 Proof.
   unfold gs_reads. destruct p; [constructor|]. destruct (negb _); [constructor|].
-  destruct r; repeat constructor.
+  destruct r; try destruct del; repeat constructor.
 Qed.
 
 Lemma cn_loop_stable F W d cwd root rb rr es :
@@ -70,18 +76,19 @@ Proof.
   intros St. induction es as [|e rest IH].
   - simpl. repeat split; constructor.
   - destruct IH as (Hc & Hy & Hr & Hp). unfold loop_ok.
-    simpl cn_loop. rewrite (St (a_path e) (a_blob e) rb).
+    simpl cn_loop. rewrite (St (a_path e) (a_blob e) rb false).
     simpl spec_pairs.
-    pose proof (gs_reads_at F (a_path e) rb root) as Ra.
-    pose proof (gs_reads_at F (b_path e) rr root) as Rb.
-    destruct (is_raise (spec_stream F W root (a_path e) (a_blob e) rb)).
+    pose proof (gs_reads_at F (a_path e) rb false root) as Ra.
+    pose proof (gs_reads_at F (b_path e) rr (e_deleted e) root) as Rb.
+    destruct (is_raise (spec_stream F W root (a_path e) (a_blob e) rb false)).
     { simpl. repeat split; auto. }
-    destruct (early_skip F (spec_stream F W root (a_path e) (a_blob e) rb)).
+    destruct (early_skip F (spec_stream F W root (a_path e) (a_blob e) rb false)).
     { simpl. repeat split; auto. apply Forall_app; split; auto. }
-    rewrite (St (b_path e) (b_blob e) rr).
-    destruct (is_raise (spec_stream F W root (b_path e) (b_blob e) rr)).
+    rewrite (St (b_path e) (b_blob e) rr (e_deleted e)).
+    destruct (is_raise (spec_stream F W root (b_path e) (b_blob e) rr (e_deleted e))).
     { simpl. repeat split; auto. apply Forall_app; split; auto. }
-    destruct (pair_of F (spec_stream F W root (a_path e) (a_blob e) rb) (spec_stream F W root (b_path e) (b_blob e) rr))
+    destruct (pair_of F (spec_stream F W root (a_path e) (a_blob e) rb false)
+                        (spec_stream F W root (b_path e) (b_blob e) rr (e_deleted e)))
       as [[fa fb]|].
     + simpl. repeat split; auto.
       * apply Forall_app; split; auto. apply Forall_app; split; auto.
@@ -115,10 +122,11 @@ Proof.
   exact (cn_loop_stable F W _ _ _ rb rr _ St).
 Qed.
 
-Theorem root_of_any F : root_property F.
+(* from the repository root the directory facts do not matter (the deleted-entry fact does: see [deleted_refuted]) *)
+Theorem root_of_any F : f_deleted_missing F = true -> root_property F.
 Proof.
-  intros W root rb rr paths. unfold cn_conclusion, changed_notebooks. simpl length.
-  pose proof (stable_root F W (root ++ [])) as St.
+  intros Hd W root rb rr paths. unfold cn_conclusion, changed_notebooks. simpl length.
+  pose proof (stable_root F W (root ++ []) Hd) as St.
   pose proof (cn_loop_stable F W _ _ _ rb rr (w_diff W (tree_of_base rb) rr (map (fun p => [] ++ p) paths)) St) as H.
   rewrite app_nil_r in *. exact H.
 Qed.
@@ -133,26 +141,28 @@ Proof.
 Qed.
 
 (* ------------------------------------------------------------------ pairs_exact in "map over filter" form *)
-Lemma spec_stream_noraise F W root p blob r :
+Lemma spec_stream_noraise F W root p blob r del :
   (forall q, w_filter W root q <> FRaise) ->
   (f_filter_in_try F = true \/ forall q, w_filter W root q <> FRaiseIO) ->
-  is_raise (spec_stream F W root p blob r) = false.
+  is_raise (spec_stream F W root p blob r del) = false.
 Proof.
   intros NR NI. unfold spec_stream. destruct p; [reflexivity|]. destruct (negb _); [reflexivity|].
   destruct r; try (destruct blob; reflexivity).
+  destruct del; [reflexivity|].
   unfold pushd_body. specialize (NR (c :: p)).
   destruct (w_filter W root (c :: p)) eqn:E; try congruence; try reflexivity.
   - destruct (w_fs W _); reflexivity.
   - destruct NI as [T | NI]; [rewrite T; reflexivity | exfalso; exact (NI _ E)].
 Qed.
 
-Lemma spec_stream_notnb F W root p blob r :
-  is_raise (spec_stream F W root p blob r) = false ->
-  is_notnb (spec_stream F W root p blob r) = negb (nb_or_none F p).
+Lemma spec_stream_notnb F W root p blob r del :
+  is_raise (spec_stream F W root p blob r del) = false ->
+  is_notnb (spec_stream F W root p blob r del) = negb (nb_or_none F p).
 Proof.
   unfold spec_stream, nb_or_none. destruct p; [reflexivity|].
   destruct (is_nb F (c :: p)); simpl; [|reflexivity].
   destruct r; try (destruct blob; reflexivity).
+  destruct del; [reflexivity|].
   unfold pushd_body. destruct (w_filter W root (c :: p)); simpl; try reflexivity; try discriminate.
   - destruct (w_fs W _); reflexivity.
   - destruct (f_filter_in_try F); simpl; [reflexivity | discriminate].
@@ -166,16 +176,16 @@ Proof.
   intros NR NI.
   induction es as [|e rest IH]; [reflexivity|].
   simpl. unfold entry_is_nb at 1.
-  pose proof (spec_stream_noraise F W root (a_path e) (a_blob e) rb NR NI) as Ra.
-  pose proof (spec_stream_noraise F W root (b_path e) (b_blob e) rr NR NI) as Rb.
-  pose proof (spec_stream_notnb F W root (a_path e) (a_blob e) rb Ra) as Na.
-  pose proof (spec_stream_notnb F W root (b_path e) (b_blob e) rr Rb) as Nb.
+  pose proof (spec_stream_noraise F W root (a_path e) (a_blob e) rb false NR NI) as Ra.
+  pose proof (spec_stream_noraise F W root (b_path e) (b_blob e) rr (e_deleted e) NR NI) as Rb.
+  pose proof (spec_stream_notnb F W root (a_path e) (a_blob e) rb false Ra) as Na.
+  pose proof (spec_stream_notnb F W root (b_path e) (b_blob e) rr (e_deleted e) Rb) as Nb.
   rewrite Ra, Rb. unfold early_skip. rewrite Na. rewrite IH.
   assert (EP : entry_pair F W root rb rr e =
-               (stream_of (spec_stream F W root (a_path e) (a_blob e) rb),
-                stream_of (spec_stream F W root (b_path e) (b_blob e) rr))) by reflexivity.
-  destruct (spec_stream F W root (a_path e) (a_blob e) rb) as [|fa|];
-    destruct (spec_stream F W root (b_path e) (b_blob e) rr) as [|fb|];
+               (stream_of (spec_stream F W root (a_path e) (a_blob e) rb false),
+                stream_of (spec_stream F W root (b_path e) (b_blob e) rr (e_deleted e)))) by reflexivity.
+  destruct (spec_stream F W root (a_path e) (a_blob e) rb false) as [|fa|];
+    destruct (spec_stream F W root (b_path e) (b_blob e) rr (e_deleted e)) as [|fb|];
     simpl in Ra, Rb, Na, Nb; try discriminate;
     destruct (nb_or_none F (a_path e)); try discriminate;
     destruct (nb_or_none F (b_path e)); try discriminate;
@@ -210,19 +220,19 @@ Qed.
 
 (* base = working tree (what the CLI passes when base is None): both sides are the same read *)
 Lemma worktree_base_degenerate F W root es :
-  Forall (fun e => a_path e = b_path e) es ->
+  Forall (fun e => a_path e = b_path e /\ e_deleted e = false) es ->
   Forall (fun pr : stream * stream => fst pr = snd pr) (fst (spec_pairs F W root RWorktree RWorktree es)).
 Proof.
-  induction 1 as [|e rest He _ IH]; simpl; [constructor|].
-  rewrite <- He.
-  destruct (is_raise (spec_stream F W root (a_path e) (a_blob e) RWorktree)); [constructor|].
+  induction 1 as [|e rest [He Hd] _ IH]; simpl; [constructor|].
+  rewrite <- He, Hd.
+  destruct (is_raise (spec_stream F W root (a_path e) (a_blob e) RWorktree false)); [constructor|].
   destruct (early_skip F _); [exact IH|].
-  assert (E : spec_stream F W root (a_path e) (b_blob e) RWorktree = spec_stream F W root (a_path e) (a_blob e) RWorktree).
+  assert (E : spec_stream F W root (a_path e) (b_blob e) RWorktree false = spec_stream F W root (a_path e) (a_blob e) RWorktree false).
   { unfold spec_stream. destruct (a_path e); [reflexivity|]. destruct (negb _); reflexivity. }
   rewrite E.
-  destruct (is_raise (spec_stream F W root (a_path e) (a_blob e) RWorktree)); [constructor|].
+  destruct (is_raise (spec_stream F W root (a_path e) (a_blob e) RWorktree false)); [constructor|].
   unfold pair_of.
-  destruct (spec_stream F W root (a_path e) (a_blob e) RWorktree).
+  destruct (spec_stream F W root (a_path e) (a_blob e) RWorktree false).
   - exact IH.
   - destruct (spec_pairs F W root RWorktree RWorktree rest); simpl in *. constructor; auto.
   - exact IH.
@@ -241,9 +251,9 @@ Proof.
     replace (k * S a) with (k + k * a) by lia. rewrite up_add. reflexivity.
 Qed.
 
-Lemma get_stream_curdir F W cwd p blob r k :
+Lemma get_stream_curdir F W cwd p blob r del k :
   f_pushd_saves F = Curdir ->
-  exists rd o, get_stream F W cwd p blob r (Up k) = (up (k * length rd) cwd, rd, o)
+  exists rd o, get_stream F W cwd p blob r del (Up k) = (up (k * length rd) cwd, rd, o)
                /\ map fst rd = drift_reads k cwd (length rd).
 Proof.
   intros Hs. unfold get_stream.
@@ -254,7 +264,9 @@ Proof.
   destruct r.
   - destruct blob; eexists [], _; simpl; rewrite Nat.mul_0_r; auto.
   - destruct blob; eexists [], _; simpl; rewrite Nat.mul_0_r; auto.
-  - rewrite Hs. exists [(up k cwd, c :: p')], (pushd_body F W (up k cwd) (c :: p')). simpl.
+  - destruct (f_deleted_missing F && del).
+    { exists [], (OStream SMissing). simpl. rewrite Nat.mul_0_r. auto. }
+    rewrite Hs. exists [(up k cwd, c :: p')], (pushd_body F W (up k cwd) (c :: p')). simpl.
     rewrite Nat.mul_1_r. split; [|reflexivity].
     destruct (pushd_body F W (up k cwd) (c :: p')), (f_pushd_finally F); reflexivity.
 Qed.
@@ -267,7 +279,7 @@ Theorem curdir_drift F W rb rr k es cwd :
 Proof.
   intros Hs. revert cwd. induction es as [|e rest IH]; intros cwd; simpl.
   - rewrite Nat.mul_0_r. auto.
-  - destruct (get_stream_curdir F W cwd (a_path e) (a_blob e) rb k Hs) as (rd1 & oa & E1 & D1).
+  - destruct (get_stream_curdir F W cwd (a_path e) (a_blob e) rb false k Hs) as (rd1 & oa & E1 & D1).
     rewrite E1.
     assert (Comb : forall (rd : list read) c2 (res' : result),
                c2 = up (k * length rd) cwd -> map fst rd = drift_reads k cwd (length rd) ->
@@ -282,7 +294,7 @@ Proof.
     { simpl. split; [reflexivity | exact D1]. }
     destruct (early_skip F oa).
     { destruct (IH (up (k * length rd1) cwd)) as [I1 I2]. apply Comb with (c2 := up (k * length rd1) cwd); auto. }
-    destruct (get_stream_curdir F W (up (k * length rd1) cwd) (b_path e) (b_blob e) rr k Hs) as (rd2 & ob & E2 & D2).
+    destruct (get_stream_curdir F W (up (k * length rd1) cwd) (b_path e) (b_blob e) rr (e_deleted e) k Hs) as (rd2 & ob & E2 & D2).
     rewrite E2.
     assert (C2 : up (k * length rd2) (up (k * length rd1) cwd) = up (k * length (rd1 ++ rd2)) cwd).
     { rewrite app_length, Nat.mul_add_distr_l, up_add. reflexivity. }
@@ -335,8 +347,8 @@ Fixpoint path_eqb (a b : path) : bool :=
   end.
 
 Definition wit_entries : list entry :=
-  [ {| a_path := [c_s; c_b]; a_blob := Some 10%N; b_path := [c_s; c_b]; b_blob := None |};
-    {| a_path := [c_s; c_c]; a_blob := Some 11%N; b_path := [c_s; c_c]; b_blob := None |} ].
+  [ {| a_path := [c_s; c_b]; a_blob := Some 10%N; b_path := [c_s; c_b]; b_blob := None; e_deleted := false |};
+    {| a_path := [c_s; c_c]; a_blob := Some 11%N; b_path := [c_s; c_c]; b_blob := None; e_deleted := false |} ].
 Definition wit_world : world := {|
   w_fs := fun p => if path_eqb p [c_r; c_s; c_b] then Some 20%N
                    else if path_eqb p [c_r; c_s; c_c] then Some 21%N else None;
@@ -354,9 +366,9 @@ Definition subdir_refuted (F : facts) : Prop :=
 
 Theorem refuted_of_curdir F : f_pushd_saves F = Curdir -> f_nb_suffix F = s_ipynb -> subdir_refuted F.
 Proof.
-  intros Hs Hn. destruct F as [sv fin suf ap sk ft]. simpl in Hs, Hn. subst sv suf.
+  intros Hs Hn. destruct F as [sv fin suf ap sk ft dm]. simpl in Hs, Hn. subst sv suf.
   exists wit_world, [c_r], [c_s], head_ref, RWorktree, [].
-  destruct fin, sk, ft; vm_compute; (split; [discriminate|]); (split; [reflexivity|]); (split; [discriminate|]);
+  destruct fin, sk, ft, dm; vm_compute; (split; [discriminate|]); (split; [reflexivity|]); (split; [discriminate|]);
     (split; [eexists; split; [left; reflexivity | discriminate]|]);
     (split; [eexists; split; [right; left; reflexivity | discriminate] | discriminate]).
 Qed.
@@ -364,7 +376,7 @@ Qed.
 (* the positive statement is not vacuous: the same scenario under a restoring pushd *)
 Example full_property_witness :
   let F := {| f_pushd_saves := Getcwd; f_pushd_finally := true; f_nb_suffix := s_ipynb; f_allpaths_base := BaseHead;
-              f_skip_both := false; f_filter_in_try := false |} in
+              f_skip_both := false; f_filter_in_try := false; f_deleted_missing := true |} in
   let res := changed_notebooks F wit_world [c_r] [c_s] head_ref RWorktree [] in
   r_cwd res = [c_r; c_s] /\
   pairs_of res = [(SBlob 10%N, SFile [c_s; c_b] 20%N); (SBlob 11%N, SFile [c_s; c_c] 21%N)].
@@ -372,37 +384,97 @@ Proof. vm_compute. split; reflexivity. Qed.
 
 Example curdir_witness_behaviour :
   let F := {| f_pushd_saves := Curdir; f_pushd_finally := true; f_nb_suffix := s_ipynb; f_allpaths_base := BaseNone;
-              f_skip_both := false; f_filter_in_try := false |} in
+              f_skip_both := false; f_filter_in_try := false; f_deleted_missing := false |} in
   let res := changed_notebooks F wit_world [c_r] [c_s] head_ref RWorktree [] in
   r_cwd res = [] /\
   pairs_of res = [(SBlob 10%N, SFile [c_s; c_b] 20%N); (SBlob 11%N, SMissing)].
 Proof. vm_compute. split; reflexivity. Qed.
 
+(* ------------------------------------------------------------------ an entry git reports as deleted, something on disk *)
+(* `git rm --cached x.ipynb` with the file left in place (or a staged deletion followed by re-creation of the file):
+   git reports `D x.ipynb` between HEAD and the working tree, the entry has deleted_file set and no b_blob, and an
+   untracked x.ipynb sits on disk.  If the working-tree branch ignores the flag, the pair's remote side is that file. *)
+Definition c_x : comp := [120; 46; 105; 112; 121; 110; 98]%N.       (* "x.ipynb" *)
+Definition del_entries : list entry :=
+  [ {| a_path := [c_x]; a_blob := Some 10%N; b_path := [c_x]; b_blob := None; e_deleted := true |} ].
+Definition del_world : world := {|
+  w_fs := fun p => if path_eqb p [c_r; c_x] then Some 20%N else None;
+  w_filter := fun _ _ => FNone;
+  w_diff := fun _ _ _ => del_entries |}.
+
+Definition deleted_refuted (F : facts) : Prop :=
+  exists W root rb rr paths,
+    let res := changed_notebooks F W root [] rb rr paths in
+    let es := w_diff W (tree_of_base rb) rr (map (fun p => [] ++ p) paths) in
+    r_raised res = false /\
+    (exists e, In e es /\ e_deleted e = true) /\
+    (exists y, In y (r_yields res) /\ y_b y <> SMissing) /\
+    r_reads res <> [] /\
+    pairs_of res <> fst (spec_pairs F W root rb rr es) /\
+    Forall (fun pr : stream * stream => snd pr = SMissing) (fst (spec_pairs F W root rb rr es)).
+
+Theorem refuted_of_deleted_ignored F : f_deleted_missing F = false -> f_nb_suffix F = s_ipynb -> deleted_refuted F.
+Proof.
+  intros Hd Hn. destruct F as [sv fin suf ap sk ft dm]. simpl in Hd, Hn. subst dm suf.
+  exists del_world, [c_r], head_ref, RWorktree, [].
+  destruct sv, fin, sk, ft; vm_compute; (split; [reflexivity|]);
+    (split; [eexists; split; [left; reflexivity | reflexivity]|]);
+    (split; [eexists; split; [left; reflexivity | discriminate]|]);
+    (split; [discriminate|]); (split; [discriminate|]); repeat constructor.
+Qed.
+
+(* not vacuous: the same scenario when the flag is honoured -- the remote side is the missing file, nothing is read *)
+Example deleted_witness_behaviour :
+  let F := {| f_pushd_saves := Getcwd; f_pushd_finally := true; f_nb_suffix := s_ipynb; f_allpaths_base := BaseHead;
+              f_skip_both := true; f_filter_in_try := true; f_deleted_missing := true |} in
+  let res := changed_notebooks F del_world [c_r] [] head_ref RWorktree [] in
+  pairs_of res = [(SBlob 10%N, SMissing)] /\ r_reads res = [] /\ r_cwd res = [c_r].
+Proof. vm_compute. repeat split; reflexivity. Qed.
+
+(* the specification's remote side of a deleted notebook entry is the missing file ... *)
+Lemma deleted_side_missing F W root p blob :
+  p <> [] -> is_nb F p = true -> spec_stream F W root p blob RWorktree true = OStream SMissing.
+Proof. intros Hp Hn. unfold spec_stream. destruct p; [congruence|]. rewrite Hn. reflexivity. Qed.
+
+(* ... and when the flag is honoured the code returns it without a read and without touching the directory, for
+   every pushd variant, every repo_dir and every directory it is called from *)
+Theorem deleted_not_read F W cwd p blob d :
+  f_deleted_missing F = true -> p <> [] -> is_nb F p = true ->
+  get_stream F W cwd p blob RWorktree true d = (cwd, [], OStream SMissing).
+Proof.
+  intros Hd Hp Hn. unfold get_stream. destruct p; [congruence|]. rewrite Hn, Hd. reflexivity.
+Qed.
+
 (* ------------------------------------------------------------------ statement selected by the source facts *)
 Definition c17_statement (F : facts) : Prop :=
-  match f_pushd_saves F, f_pushd_finally F with
-  | Getcwd, true => full_property F
-  | Getcwd, false => root_property F
-  | Curdir, _ => root_property F /\
-                 (f_nb_suffix F = s_ipynb -> subdir_refuted F) /\
-                 (forall W root popped rb rr paths, popped <> [] ->
-                    let res := changed_notebooks F W root popped rb rr paths in
-                    r_reads res <> [] -> r_cwd res <> root ++ popped)
+  match f_deleted_missing F with
+  | false => f_nb_suffix F = s_ipynb -> deleted_refuted F
+  | true =>
+    match f_pushd_saves F, f_pushd_finally F with
+    | Getcwd, true => full_property F
+    | Getcwd, false => root_property F
+    | Curdir, _ => root_property F /\
+                   (f_nb_suffix F = s_ipynb -> subdir_refuted F) /\
+                   (forall W root popped rb rr paths, popped <> [] ->
+                      let res := changed_notebooks F W root popped rb rr paths in
+                      r_reads res <> [] -> r_cwd res <> root ++ popped)
+    end
   end.
 
 Theorem c17_by_fact F : c17_statement F.
 Proof.
-  unfold c17_statement. destruct (f_pushd_saves F) eqn:Hs.
+  unfold c17_statement. destruct (f_deleted_missing F) eqn:Hd; [|apply refuted_of_deleted_ignored; exact Hd].
+  destruct (f_pushd_saves F) eqn:Hs.
   - assert (X : root_property F /\ (f_nb_suffix F = s_ipynb -> subdir_refuted F) /\
                 (forall W root popped rb rr paths, popped <> [] ->
                     let res := changed_notebooks F W root popped rb rr paths in
                     r_reads res <> [] -> r_cwd res <> root ++ popped)).
-    { split; [apply root_of_any|]. split; [apply refuted_of_curdir; exact Hs|].
+    { split; [apply root_of_any; exact Hd|]. split; [apply refuted_of_curdir; exact Hs|].
       intros W root popped rb rr paths Hp. apply curdir_not_restored; assumption. }
     destruct (f_pushd_finally F); exact X.
   - destruct (f_pushd_finally F) eqn:Hf.
-    + apply full_of_good. split; assumption.
-    + apply root_of_any.
+    + apply full_of_good. repeat split; assumption.
+    + apply root_of_any. exact Hd.
 Qed.
 
 (* ------------------------------------------------------------------ command line: resolve_diff_args / main_diff *)
